@@ -571,8 +571,10 @@ def build_model(rng, feat):
   edits["actuator_gaintype"], edits["actuator_gainprm"] = m.actuator_gaintype.tolist(), m.actuator_gainprm[:, :3].tolist()
   edits["actuator_biastype"], edits["actuator_biasprm"] = m.actuator_biastype.tolist(), m.actuator_biasprm[:, :3].tolist()
   if feat["fluid"]:
-    m.opt.density = float(rng.uniform(0.5, 50))
-    m.opt.viscosity = float(rng.uniform(0, 0.5))
+    # medium: both / density only / viscosity only (exactly one coefficient zero) / both, cyclically
+    kind = feat.get("medium", "both")
+    m.opt.density = float(rng.uniform(0.5, 50)) if kind in ("both", "density") else 0.0
+    m.opt.viscosity = float(rng.uniform(0.05, 0.5)) if kind in ("both", "viscosity") else 0.0
     if rng.random() < 0.5:
       m.opt.wind[:] = rng.normal(0, 1, 3)
     edits["density"], edits["viscosity"], edits["wind"] = m.opt.density, m.opt.viscosity, m.opt.wind.tolist()
@@ -652,7 +654,7 @@ def oracle(res, nmodels):
   stats = {"models": 0, "states": 0, "skipped_nv0": 0, "csr_invariant_checked": 0, "models_with_muscle": 0, "models_with_clamped_ctrl": 0}
   for k in range(nmodels):
     feat = dict(poly=bool(k % 2), tendon=bool(k % 3 == 0), fluid=bool(k % 4 in (1, 2)), ellipsoid=bool(k % 8 in (2, 5)), forcelimited=bool(k % 5 == 3), muscle=bool(k % 3 == 2),
-                disable={6: 64, 13: 32 | 64, 20: 32}.get(k % 21, 0),  # DAMPER / SPRING+DAMPER (passive off, a0466b7) / SPRING
+                disable={6: 64, 13: 32 | 64, 20: 32}.get(k % 21, 0), medium=["both", "density", "viscosity"][(k // 4) % 3],  # DAMPER / SPRING+DAMPER (passive off, a0466b7) / SPRING
                 jac=["dense", "sparse"][k % 2], vel=float(10 ** rng.uniform(-0.5, 1.3)))  # fmt: skip
     xml, edits, m, d = build_model(rng, feat)
     if m.nv == 0:
@@ -862,15 +864,79 @@ def oracle_poly(res, nstates):
   return fails
 
 
+FLUID_XML = {
+  "box": """<mujoco><option gravity="0 0 -9.81" jacobian="{jac}"/><default><geom contype="0" conaffinity="0"/></default><worldbody>
+   <body pos="0 0 1"><joint name="j0" axis="0 1 0"/><geom type="box" size=".15 .04 .02" pos=".15 0 0"/>
+    <body pos=".3 0 0"><joint name="j1" axis="0 0 1"/><joint name="j2" type="slide" axis="1 .3 0"/><geom type="capsule" size=".03" fromto="0 0 0 .2 .1 0"/></body></body>
+   <body pos="0 .6 1"><freejoint/><geom type="box" size=".1 .06 .03"/><body pos=".1 0 0"><joint axis="0 1 0"/><geom type="sphere" size=".04" pos=".05 0 0"/></body></body>
+   </worldbody></mujoco>""",
+  "ellipsoid": """<mujoco><option gravity="0 0 -9.81" jacobian="{jac}"/><default><geom contype="0" conaffinity="0"/></default><worldbody>
+   <body pos="0 0 1"><joint name="j0" axis="0 1 0"/><geom type="ellipsoid" size=".1 .05 .02" pos=".2 0 0" euler="10 20 30" fluidshape="ellipsoid"/>
+    <body pos=".4 0 0"><joint name="j1" axis="0 0 1"/><geom type="box" size=".08 .03 .05" pos=".1 .05 0" euler="40 -20 10" fluidshape="ellipsoid"/></body></body>
+   <body pos="0 .6 1"><joint type="ball"/><geom type="capsule" size=".03 .1" pos=".05 0 0" fluidshape="ellipsoid"/><body pos=".1 0 0"><joint axis="0 1 0"/><geom type="cylinder" size=".04 .05" pos=".05 0 0" fluidshape="ellipsoid"/></body></body>
+   </worldbody></mujoco>""",
+}
+MEDIA = {"both": (1, 1), "density-only": (1, 0), "viscosity-only": (0, 1), "neither": (0, 0)}
+
+
+def oracle_fluid(res, nrep):
+  """Fluid media: density only, viscosity only, both, neither; with and without wind; inertia-box bodies and
+  ellipsoid bodies; dense and sparse; implicitfast and implicit.  Compared with MuJoCo's qDeriv and float64
+  finite differences (compare_one).  The implicit + ellipsoid upper-triangle defect is a known finding and is
+  classified under its key."""
+  import mujoco
+
+  rng = np.random.default_rng(vlib.seed() + 2707)
+  fails = []
+  stats = {}
+  for r in range(nrep):
+    for shape, xml0 in FLUID_XML.items():
+      for mname, (hd, hv) in MEDIA.items():
+        jac = ["dense", "sparse"][(r + hd) % 2]
+        xml = xml0.format(jac=jac)
+        m = mujoco.MjModel.from_xml_string(xml)
+        m.opt.timestep = float(rng.choice([0.002, 0.01]))
+        m.opt.density = float(rng.uniform(1, 40)) * hd
+        m.opt.viscosity = float(rng.uniform(0.05, 0.5)) * hv
+        windy = bool((r + hv) % 2)
+        if windy:
+          m.opt.wind[:] = rng.normal(0, 1.5, 3)
+        edits = {"timestep": m.opt.timestep, "density": m.opt.density, "viscosity": m.opt.viscosity, "wind": m.opt.wind.tolist()}
+        d = mujoco.MjData(m)
+        d.qpos[:] = rng.normal(0, 0.5, m.nq)
+        for j in range(m.njnt):
+          if m.jnt_type[j] in (0, 1):
+            a = m.jnt_qposadr[j] + (3 if m.jnt_type[j] == 0 else 0)
+            q = rng.normal(0, 1, 4)
+            d.qpos[a : a + 4] = q / np.linalg.norm(q)
+        d.qvel[:] = rng.normal(0, [0.5, 3.0, 10.0][r % 3], m.nv).astype(np.float32)
+        mujoco.mj_forward(m, d)
+        for integ in (IMPLICITFAST, IMPLICIT):
+          bad = compare_one(m, d, integ)
+          res.count()
+          res.nontrivial(("fluid", shape, mname, windy, jac, int(integ), r))
+          stats[f"{shape}:{mname}"] = stats.get(f"{shape}:{mname}", 0) + 1
+          for b in bad:
+            b.update(xml=xml, edits=edits, features={"fluid": True, "ellipsoid": shape == "ellipsoid", "poly": False, "tendon": False, "forcelimited": False, "jac": jac,
+                                                     "nv": m.nv, "nu": 0, "ntendon": 0, "fluidmedia": f"{shape}:{mname}{':wind' if windy else ''}"})  # fmt: skip
+            fails.append(b)
+  res.extra["oracle_fluid"] = stats
+  return fails
+
+
 def classify(f):
   ft = f["features"]
   if f["integrator"] == IMPLICIT and ft["ellipsoid"] and ft["fluid"] and f["lower_triangle_agrees"]:
     return K_ELLIPS
   tag = "implicit" if f["integrator"] == IMPLICIT else "implicitfast"
+  if ft.get("fluidmedia") and not (f["integrator"] == IMPLICIT and ft["ellipsoid"] and f["lower_triangle_agrees"]):
+    return f"C27:oracle:{tag}:fluid-derivative:{ft['fluidmedia']}:{ft['jac']}"
   if ft.get("polydamp"):
     i, j = f["worst"]
     return f"C27:oracle:{tag}:polynomial-damping-derivative:{'diagonal' if i == j else 'off-diagonal'}:{ft['jac']}"
   feats = "+".join(k for k in ("fluid", "ellipsoid", "poly", "tendon", "forcelimited", "muscle", "disable") if ft.get(k)) or "plain"
+  if ft.get("fluid") and ft.get("medium", "both") != "both":
+    feats += f"+{ft['medium']}-only-medium"
   return f"C27:oracle:{tag}:qderiv-mismatch:{feats}:{ft['jac']}"
 
 
@@ -979,7 +1045,8 @@ def run(res):
   lap("kernel validation")
   fails, inv_bad = oracle(res, 36 if quick else 400)
   pfails = oracle_poly(res, 12 if quick else 120)
-  fails = fails + pfails
+  ffails = oracle_fluid(res, 2 if quick else 12)
+  fails = fails + pfails + ffails
   efails = oracle_euler(res, 10 if quick else 100)
   lap("oracle")
   seen = set()
